@@ -185,7 +185,7 @@ def step (line impl : String) : String :=
     let expected := s!"A=fresh B={bModel} C=fresh"
     if field impl "B" == "stale" then
       specViol ("a request without model id that started after WriteAuthorizationModel was acknowledged was evaluated against the older model" ++
-        (if variant == "0" then ": FXX singleflight joins an in-flight FindLatestAuthorizationModel that started before the write" else " although no other request was in flight"))
+        (if variant == "0" then ": F20 singleflight joins an in-flight FindLatestAuthorizationModel that started before the write" else " although no other request was in flight"))
     else if field impl "C" != "fresh" || field impl "A" != "fresh" then specViol "a sequential request without model id did not see the latest model"
     else if impl != expected then modelDiff expected
     else ok ("singleflight-" ++ variant) true
